@@ -29,6 +29,8 @@ type TierSpec struct {
 	MaxPaths int            `json:"max_paths"`
 	TimeoutS int            `json:"timeout_s"`
 	OblS     int            `json:"obligation_timeout_s"`
+	PipeMs   int            `json:"pipe_timeout_ms"`        // incremental-solver budget per obligation before the portfolio takes over (default 10000)
+	FeasMs   int            `json:"feasibility_timeout_ms"` // incremental-solver budget per fork alternative (default 2000; unknown = explored)
 	Skip     bool           `json:"skip"`
 }
 
